@@ -34,11 +34,11 @@ RULE = ("grammar-directed over the public operators (IntVar/Expr +,-,*, reversed
         "(k*x+-c ~ k*y+-d, k*(x-y) ~ c, k*x-k*y ~ c, x+x ~ y+y+c with k in {2,3,-2}, constants divisible or not, ==/!=, "
         "alone or with x==y / x!=y / all_different); collection arguments of all_different/sum_*/circuit/no_overlap/"
         "cumulative are presented as list, tuple, generator, map, reversed, iter, dict values view or a scratch list "
-        "that is cleared and refilled after add() (30% of the plain models, 70% of the history constraints); 1200 x "
-        "budget HISTORIES on one Model object (2-3 rounds of: declare variables, add constraints, solve with a varying "
+        "that is cleared and refilled after add() (30% of the plain models, 70% of the history constraints); 1200 "
+        "(quick) HISTORIES on one Model object (2-3 rounds of: declare variables, add constraints, solve with a varying "
         "back-end; half of them start with a SAT solve that creates auxiliary variables), every solve judged against "
         "Cp.Sem of the model as it is at that solve, class suffix :after_previous_solve when the same model passes "
-        "when built fresh; non-trivial = >=1 constraint and >=2 variables with non-singleton domains; "
+        "when built fresh (thorough: 600 x budget); non-trivial = >=1 constraint and >=2 variables with non-singleton domains; "
         "distinct by (model, hints, limit, solver)")
 FN = "Model.solve"
 WEIGHTS = {"rel": 45, "simple": 18, "alldiff": 10, "sumeq": 5, "sumle": 4, "sumge": 4, "circuit": 5, "noov": 5, "cum": 4}
@@ -424,7 +424,7 @@ def run(ctx, budget):
     run_cases(ctx, gen_scaled_cases(ctx.rng, 400 * budget))
     # fixed share, both tiers: histories on one Model (solve, extend, solve again) with presentation styles
     for _ in range(budget):
-        run_histories(ctx, [K.gen_history(ctx.rng, big=(ctx.tier == "thorough")) for _ in range(1200)])
+        run_histories(ctx, [K.gen_history(ctx.rng) for _ in range(1200 if ctx.tier == "quick" else 600)])
     summarise(ctx)
 
 
